@@ -71,11 +71,13 @@ var shapeFocus = map[string]string{
 	"pending-calls":                        "syncCall syncCancel close dealer timerCancel",
 	"bad-realm-uri":                        "addRealm AddRealm newRealm newBroker newDealer RealmTemplate AttachClient",
 	"removerealm-during-auth":              "getAuthenticator authClient RemoveRealm AttachClient close actionChan",
+	"filtered-disclosed-self-publish":      "syncPubEvent disclosePublisher publish filter Allowed Lock broker trySend",
 	"stalled-metacall-unregister":          "unregister syncUnregister metaPeer yield syncYield createMetaSession dealer register",
 	"stalled-callee-cancel-kill":           "syncCancel cancel INTERRUPT trySend dealer call_canceling",
 	"denied-request-from-stalled-client":   "authzMessage Authorize handleInboundMessages not_authorized trySend close waitHandlers",
 	"stalled-rawsocket-then-close":         "rawSocketPeer websocketPeer Close writerDone sendHandler writeFrame SetWriteDeadline close handleSession",
 	"caller-leaves-with-armed-timer":       "syncRemoveSession removeSession timerCancel timers close dealer syncCall onLeave",
+	chShape:                                "syncCall syncError syncYield INVOCATION progress dealer trySend",
 	csShape:                                "syncCancel cancel INTERRUPT trySend dealer call_canceling",
 	yrShape:                                "yield syncYield syncCancel sendResultDeadline yieldRetryDelay keepInvocation dealer",
 }
@@ -88,6 +90,7 @@ var c07Shapes = []struct {
 	{"stalled-callee", 8}, {"kill-stalled", 8}, {"realm-churn", 5}, {"burst-mix", 10},
 	{"meta-subscriber-stalled", 7}, {"stalled-rawsocket-ppt", 2},
 	{"stalled-metacall-unregister", 4}, {"stalled-callee-cancel-kill", 4},
+	{"filtered-disclosed-self-publish", 5},
 }
 
 var c06Shapes = []struct {
@@ -617,6 +620,40 @@ func genC07(o *genOpts, k int) *History {
 			b.add(Op{Op: "unregister", S: x, Proc: "p2"})
 		}
 		b.randomOps(post)
+	case "filtered-disclosed-self-publish":
+		// Publications with a receiver filter, disclose_me and exclude_me=false
+		// from sessions that are themselves subscribed; the recipients announced
+		// publisher_identification.  Some recipients do not read.
+		vs, by := b.population(r.between(0, 1), r.between(2, 4))
+		all := append(append([]int{}, vs...), by...)
+		for _, s := range all {
+			h.Sessions[s].Feat = true
+			h.Sessions[s].Realm = h.Realms[0]
+		}
+		t := topics[r.intn(len(topics))]
+		for _, s := range all {
+			if r.chance(80) || s == by[0] {
+				b.add(Op{Op: "subscribe", S: s, Topic: t})
+				b.subs[s][t] = true
+			}
+		}
+		b.randomOps(pre / 3)
+		for _, v := range vs {
+			if r.chance(60) {
+				b.fillVictim(v)
+			}
+		}
+		filters := []string{"exclude", "exclude_authrole", "exclude_authid"}
+		for i := r.between(1, 3); i > 0; i-- {
+			p := by[r.intn(len(by))]
+			if !b.alive[p] {
+				continue
+			}
+			b.add(Op{Op: "publish", S: p, Topic: t, Ack: r.chance(70), Filter: filters[r.intn(3)], Disclose: true, ToSelf: true})
+		}
+		// and the variants that must not matter
+		b.add(Op{Op: "publish", S: by[0], Topic: t, Ack: true, Filter: filters[r.intn(3)], Disclose: r.chance(50), ToSelf: r.chance(50)})
+		b.randomOps(post / 2)
 	case "stalled-metacall-unregister":
 		// A bystander registers while the meta session is free; a session with a
 		// full queue calls a meta procedure (the meta-session handler sits in the
@@ -1189,6 +1226,7 @@ func generate(o *genOpts) []*History {
 	if o.prop == "C07" {
 		out = append(out, genYieldResume(o)...)
 		out = append(out, genCancelStalled(o)...)
+		out = append(out, genChunkStalled(o)...)
 		for k := 0; k < o.n; k++ {
 			out = append(out, genC07(o, k))
 		}
